@@ -1,6 +1,6 @@
 From SM Require Import Model.Base Model.Gen_B64 Model.Vlq Spec.Vlq Model.Mappings Model.Header Model.Glb
      Model.SourceView Spec.SourceView Model.Paths Spec.Paths Model.Adjust Spec.Adjust Model.RamBundle Spec.Glb
-     Model.SourceMap Model.Rewrite Model.NameRes Spec.NameRes Model.Detector Spec.Base64 Model.Conc Model.Raw Spec.Mappings Spec.Hermes.
+     Model.SourceMap Model.Rewrite Model.NameRes Spec.NameRes Model.Detector Spec.Base64 Model.Conc Model.Raw Spec.Mappings Spec.Hermes Spec.Rules.
 Require Extraction.
 Require Import ExtrOcamlBasic.
 Extraction Language OCaml.
@@ -31,5 +31,5 @@ Extraction "model.ml"
   name_res name_res_spec locate b64_encode b64_decode
   parse is_ram_bundle startup_code get_module
   step init_shared init_thread
-  decode_regular decode_common sm_as_raw dm_as_raw spec_decode_mappings spec_scope decode_hermes
+  decode_regular decode_common sm_as_raw dm_as_raw spec_decode_mappings strict_decode_mappings spec_join spec_strip find_common_prefix spec_scope decode_hermes
   Z.add Z.mul Z.div Z.modulo Z.opp Z.ltb Z.eqb Z.of_nat Z.to_nat.
